@@ -314,6 +314,232 @@ MUTANTS += [
         self.offset += num_bytes;''')]),
 ]
 
+LIB = 'src/lib.rs'
+BRW = 'src/block_read_write.rs'
+MUTANTS += [
+    # ---------------- BYTES
+    dict(name='bytes_padding_not_counted', props=['C15'], rules=['BY1'], desc='write_frame does not count the zero padding',
+         edits=[(FWR, '            num_bytes_written += num_bytes_remaining_in_block;\n', '')]),
+    dict(name='bytes_gc_not_counted', props=['C15'], rules=['BY3'], desc='truncate drops the bytes written by the GC pass',
+         edits=[(MRL, '        num_bytes_written += self.run_gc_if_necessary()?;\n        self.persist_on_policy()?;', '        self.run_gc_if_necessary()?;\n        self.persist_on_policy()?;'),
+                (MRL, '        let mut num_bytes_written =\n            self.record_log_writer\n                .write_record(MultiPlexedRecord::Truncate {', '        let num_bytes_written =\n            self.record_log_writer\n                .write_record(MultiPlexedRecord::Truncate {')]),
+    dict(name='bytes_frame_header_not_counted', props=['C15'], rules=['BY2'], desc='write_record counts payload bytes instead of what write_frame reports',
+         edits=[(RWR, '            num_bytes_written += self.frame_writer.write_frame(frame_type, frame_payload)? as u64;', '            self.frame_writer.write_frame(frame_type, frame_payload)?;\n            num_bytes_written += frame_payload.len() as u64;')]),
+    dict(name='offset_not_advanced_on_empty_tail', props=['C15'], rules=['BY6'], desc='block writer: offset only advanced when the write does not end the block',
+         edits=[(DIR, '        self.offset += buf.len();\n        self.file.write_all(buf)?;', '        self.file.write_all(buf)?;\n        if buf.len() < self.num_bytes_remaining_in_block() {\n            self.offset += buf.len();\n        }')]),
+    # ---------------- QUIET
+    dict(name='truncate_logs_before_check', props=['C13'], rules=['QX1'], desc='truncate writes the Truncate entry before checking that the queue exists',
+         edits=[(MRL, """        if !self.queue_exists(queue) {
+            return Err(TruncateError::MissingQueue(queue.to_string()));
+        }
+        let mut num_bytes_written =
+            self.record_log_writer
+                .write_record(MultiPlexedRecord::Truncate {
+                    truncate_range,
+                    queue,
+                })?;""", """        let mut num_bytes_written =
+            self.record_log_writer
+                .write_record(MultiPlexedRecord::Truncate {
+                    truncate_range,
+                    queue,
+                })?;
+        if !self.queue_exists(queue) {
+            return Err(TruncateError::MissingQueue(queue.to_string()));
+        }""")]),
+    dict(name='create_queue_logs_before_check', props=['C13'], rules=['QX1', 'QX3'], desc='create_queue relies on MemQueues::create_queue to reject duplicates, after the WAL write',
+         edits=[(MRL, """        if self.queue_exists(queue) {
+            return Err(CreateQueueError::AlreadyExists);
+        }
+        let record = MultiPlexedRecord::RecordPosition { queue, position: 0 };""", """        let record = MultiPlexedRecord::RecordPosition { queue, position: 0 };""")]),
+    dict(name='empty_batch_is_logged', props=['C13'], rules=['QX3'], desc='the empty-batch early return is removed',
+         edits=[(MRL, """        if multi_record_spare_buffer.is_empty() {
+            self.multi_record_spare_buffer = multi_record_spare_buffer;
+            // empty transaction: don't persist it
+            return Ok(AppendOutcome {
+                last_position: None,
+                wal_bytes_written: 0,
+            });
+        }
+""", "")]),
+    dict(name='retry_gate_removed', props=['C13'], rules=['QX3'], desc='an append retried at the last position is no longer acknowledged as a no-op (falls to Past)',
+         edits=[(MRL, """            if position + 1 == next_position {
+                return Ok(AppendOutcome {
+                    last_position: None,
+                    wal_bytes_written: 0,
+                });
+            } else if position < next_position {""", """            if position < next_position {""")]),
+    # ---------------- NI
+    dict(name='gc_skipped_when_policy_noop', props=['C14'], rules=['NI1', 'NI3'], desc='truncate skips the GC pass under DoNothing',
+         edits=[(MRL, '        num_bytes_written += self.run_gc_if_necessary()?;\n        self.persist_on_policy()?;', '        if !matches!(self.next_persist, PersistState::NoOp) {\n            num_bytes_written += self.run_gc_if_necessary()?;\n        }\n        self.persist_on_policy()?;')]),
+    dict(name='persist_touches_offset', props=['C14'], rules=['NI4'], desc='the Flush arm of persist realigns the write offset to the block',
+         edits=[(DIR, """            PersistAction::Flush => {
+                // This will flush the buffer of the BufWriter to the underlying OS.
+                self.file.flush()""", """            PersistAction::Flush => {
+                self.offset -= self.offset % BLOCK_NUM_BYTES;
+                // This will flush the buffer of the BufWriter to the underlying OS.
+                self.file.flush()""")]),
+    dict(name='open_skips_gc_when_noop', props=['C14'], rules=['NI2', 'NI3'], desc='open only runs the recovery GC when the policy is not DoNothing',
+         edits=[(MRL, """            next_persist: persist_policy.into(),""", """            next_persist: persist_policy.clone().into(),"""),
+                (MRL, """        let _ = multi_record_log.run_gc_if_necessary()?;""", """        if !matches!(persist_policy, PersistPolicy::DoNothing) {
+            let _ = multi_record_log.run_gc_if_necessary()?;
+        }""")]),
+    dict(name='append_is_fsync_shortcut', props=['C14'], rules=['NI3'], desc='append_records skips the in-memory spare-buffer reuse when the action is fsync (branch on is_fsync outside the policy module)',
+         edits=[(MRL, """        self.multi_record_spare_buffer = multi_record_spare_buffer;
+        Ok(AppendOutcome {
+            last_position: Some(max_position),""", """        if !PersistAction::Flush.is_fsync() {
+            self.multi_record_spare_buffer = multi_record_spare_buffer;
+        }
+        Ok(AppendOutcome {
+            last_position: Some(max_position),""")]),
+    # ---------------- ISO
+    dict(name='empty_queues_yields_all', props=['C18', 'C01'], rules=['ISO4', 'GC1'], desc='empty_queues without the is_empty filter',
+         edits=[(QS, """            if mem_queue.is_empty() {
+                Some((queue.as_str(), mem_queue))
+            } else {
+                None
+            }""", """            Some((queue.as_str(), mem_queue))""")]),
+    dict(name='replay_truncate_fixed_key', props=['C18'], rules=['ISO2'], desc='replay applies Truncate to a fixed other key',
+         edits=[(MRL, '                        in_mem_queues.truncate(queue, truncate_range);', '                        let _ = queue;\n                        in_mem_queues.truncate("default", truncate_range);')]),
+    dict(name='delete_queue_prefix_retain', props=['C18'], rules=['ISO3'], desc='MemQueues::delete_queue also drops every queue whose name starts with the deleted name',
+         edits=[(QS, """        if self.queues.remove(queue).is_none() {""", """        self.queues.retain(|name, _| !name.starts_with(queue) || name == queue);
+        if self.queues.remove(queue).is_none() {""")]),
+    dict(name='truncate_trims_key', props=['C18'], rules=['ISO1'], desc='truncate applies the in-memory truncation to queue.trim()',
+         edits=[(MRL, '            .truncate(queue, truncate_range)\n            .unwrap_or(0);', '            .truncate(queue.trim(), truncate_range)\n            .unwrap_or(0);')]),
+    # ---------------- PAST / RP
+    dict(name='past_check_skipped_when_empty', props=['C04'], rules=['PAST1'], desc='MemQueue::append_record only rejects past positions for non-empty queues',
+         edits=[(Q, '        if target_position < next_position {\n            return Err(AppendError::Past);', '        if target_position < next_position && !self.record_metas.is_empty() {\n            return Err(AppendError::Past);')]),
+    dict(name='past_gate_removed', props=['C04', 'C13'], rules=['PAST2', 'QX3'], desc='append_records no longer rejects explicit positions in the past before logging',
+         edits=[(MRL, """            } else if position < next_position {
+                return Err(AppendError::Past);
+            }""", """            }""")]),
+    dict(name='implicit_position_zero', props=['C04'], rules=['PAST3'], desc='automatic position falls back to 0 instead of the next position',
+         edits=[(MRL, 'let position = position_opt.unwrap_or(next_position);', 'let position = position_opt.unwrap_or(0);')]),
+    dict(name='replay_position_off_by_one', props=['C04'], rules=['RP1'], desc='replay of RecordPosition acks position + 1',
+         edits=[(MRL, """                    MultiPlexedRecord::RecordPosition { queue, position } => {
+                        in_mem_queues.ack_position(queue, position);""", """                    MultiPlexedRecord::RecordPosition { queue, position } => {
+                        in_mem_queues.ack_position(queue, position + 1);""")]),
+    # ---------------- NU
+    dict(name='deserialize_unchecked_batch', props=['C12', 'C08'], rules=['NU2', 'NU1'], desc='deserialize builds the batch view with new_unchecked',
+         edits=[(REC, 'records: MultiRecord::new(payload).ok()?,', 'records: MultiRecord::new_unchecked(payload),')]),
+    # ---------------- MA / DU
+    dict(name='capacity_omits_key', props=['C16'], rules=['MA1'], desc='allocated bytes omit the queue names',
+         edits=[(QS, '.map(|(name, queue)| name.capacity() + queue.capacity())', '.map(|(_name, queue)| queue.capacity())')]),
+    dict(name='size_uses_metas_capacity', props=['C16'], rules=['MA1'], desc='MemQueue::size uses record_metas.capacity()',
+         edits=[(Q, """        self.concatenated_records.len()
+            + self.record_metas.len() * std::mem::size_of::<RecordMeta>()""", """        self.concatenated_records.len()
+            + self.record_metas.capacity() * std::mem::size_of::<RecordMeta>()""")]),
+    dict(name='clear_keeps_allocation', props=['C16'], rules=['MA3'], desc='RollingBuffer::clear without shrink_to_fit',
+         edits=[(RB, '        self.buffer.clear();\n        self.buffer.shrink_to_fit();', '        self.buffer.clear();')]),
+    dict(name='used_allocated_swapped', props=['C16'], rules=['MA1'], desc='resource_usage swaps used and allocated',
+         edits=[(MRL, 'let (memory_used_bytes, memory_allocated_bytes) = self.in_mem_queues.size();', 'let (memory_allocated_bytes, memory_used_bytes) = self.in_mem_queues.size();')]),
+    dict(name='disk_size_per_block', props=['C06'], rules=['DU1'], desc='RollingWriter::size multiplies by the block size',
+         edits=[(DIR, 'self.directory.files.count() * FILE_NUM_BYTES', 'self.directory.files.count() * FRAME_NUM_BYTES')]),
+    # ---------------- FS
+    dict(name='scan_without_is_file', props=['C17'], rules=['FS3'], desc='directory scan no longer skips non-regular files',
+         edits=[(DIR, """            if !dir_entry.file_type()?.is_file() {
+                continue;
+            }
+""", "")]),
+    dict(name='parser_without_digit_test', props=['C17'], rules=['FS4'], desc='filename_to_position without the ASCII digit test',
+         edits=[(DIR, """    let seq_number_str = &file_name[4..];
+    if !seq_number_str.as_bytes().iter().all(u8::is_ascii_digit) {
+        return None;
+    }
+""", "")]),
+    dict(name='filename_width_19', props=['C17', 'C01'], rules=['FS2'], desc='{:020} -> {:019}',
+         edits=[(FNUM, 'format!("wal-{:020}", self.file_number)', 'format!("wal-{:019}", self.file_number)')]),
+    dict(name='filename_prefix_changed_writer_only', props=['C17', 'C01'], rules=['FS2'], desc='writer uses the prefix "wal_"',
+         edits=[(FNUM, 'format!("wal-{:020}", self.file_number)', 'format!("wal_{:020}", self.file_number)')]),
+    dict(name='gc_removes_tmp_file_too', props=['C17'], rules=['FS1'], desc='gc also removes dir.join("wal-tmp")',
+         edits=[(DIR, """            std::fs::remove_file(&filepath)?;
+        }
+        Ok(())""", """            std::fs::remove_file(&filepath)?;
+        }
+        let _ = std::fs::remove_file(self.dir.join("wal-tmp"));
+        Ok(())""")]),
+    # ---------------- CODEC / TAINT
+    dict(name='writer_pads_on_le', props=['C07', 'C01'], rules=['CD2'], desc='writer pads when remaining <= HEADER_LEN',
+         edits=[(FWR, 'if num_bytes_remaining_in_block < HEADER_LEN {', 'if num_bytes_remaining_in_block <= HEADER_LEN {')]),
+    dict(name='block_size_128k', props=['C07'], rules=['CD1'], desc='BLOCK_NUM_BYTES = 1 << 17 (frame length no longer fits u16)',
+         edits=[(BRW, 'pub const BLOCK_NUM_BYTES: usize = 32_768;', 'pub const BLOCK_NUM_BYTES: usize = 1 << 17;')]),
+    dict(name='frame_type_first_last_swapped', props=['C07'], rules=['CD4'], desc='frame_type(): First and Last swapped',
+         edits=[(RWR, '        (true, false) => FrameType::First,\n        (false, true) => FrameType::Last,', '        (true, false) => FrameType::Last,\n        (false, true) => FrameType::First,')]),
+    dict(name='from_u8_middle_last_swapped', props=['C07'], rules=['CD4'], desc='from_u8 decodes 3 as Last and 4 as Middle',
+         edits=[(HDR, '            3u8 => Some(FrameType::Middle),\n            4u8 => Some(FrameType::Last),', '            3u8 => Some(FrameType::Last),\n            4u8 => Some(FrameType::Middle),')]),
+    dict(name='batch_len_written_as_u16', props=['C07', 'C01'], rules=['CD3'], desc='serialize_with_pos writes the record length as u16, the reader still reads u32',
+         edits=[(REC, 'output.extend_from_slice(&(record_payload.remaining() as u32).to_le_bytes());', 'output.extend_from_slice(&(record_payload.remaining() as u16).to_le_bytes());')]),
+    dict(name='queue_len_assert_removed', props=['C07'], rules=['CD7'], desc='record::serialize no longer asserts queue.len() <= u16::MAX',
+         edits=[(REC, '    assert!(queue.len() <= u16::MAX as usize);\n    buffer.push(record_type as u8);', '    buffer.push(record_type as u8);')]),
+    dict(name='alloc_before_length_check', props=['C10', 'C08'], rules=['TAINT1'], desc='MultiRecord::next allocates a scratch Vec sized by the decoded length before checking it',
+         edits=[(REC, """        let buffer = &buffer[HEADER_LEN..];
+
+        if buffer.len() < len {""", """        let buffer = &buffer[HEADER_LEN..];
+        let scratch: Vec<u8> = Vec::with_capacity(len);
+        drop(scratch);
+
+        if buffer.len() < len {""")]),
+    dict(name='frame_sliced_before_bounds_check', props=['C10', 'C08'], rules=['TAINT1'], desc='read_frame slices the payload before checking that it fits the block',
+         edits=[(FRD, """        if self.cursor + header.len() > BLOCK_NUM_BYTES {
+            // The number of bytes for this frame would span over
+            // the next block.
+            // This is a corruption for which we need to drop the entire block.
+            self.block_corrupted = true;
+            return Err(ReadFrameError::Corruption);
+        }
+        let frame_payload = &self.reader.block()[self.cursor..][..header.len()];""", """        let frame_payload = &self.reader.block()[self.cursor..][..header.len()];
+        if self.cursor + header.len() > BLOCK_NUM_BYTES {
+            // The number of bytes for this frame would span over
+            // the next block.
+            // This is a corruption for which we need to drop the entire block.
+            self.block_corrupted = true;
+            return Err(ReadFrameError::Corruption);
+        }""")]),
+    # ---------------- from the seeded round (DESIGN §8.3)
+    dict(name='reader_moves_before_read', props=['C02', 'C01', 'C07'], rules=['NB1'], desc='next_block assigns file / file_number / block_id before the first block of the next file was read',
+         edits=[(DIR, """            let mut next_file: File = self.directory.open_file(&next_file_number)?;
+            let success = read_block(&mut next_file, &mut self.block)?;
+            if success {
+                self.block_id = 0;
+                self.file = next_file;
+                self.file_number = next_file_number;
+                return Ok(true);
+            }
+""", """            self.file = self.directory.open_file(&next_file_number)?;
+            self.file_number = next_file_number.clone();
+            self.block_id = 0;
+            let success = read_block(&mut self.file, &mut self.block)?;
+            if success {
+                return Ok(true);
+            }
+""")]),
+    dict(name='deleted_queue_kept_across_gc', props=['C06'], rules=['GC11'], desc='delete_queue keeps the removed MemQueue alive across the GC pass',
+         edits=[(QS, """    pub fn delete_queue(&mut self, queue: &str) -> Result<(), MissingQueue> {
+        info!(queue = queue, "deleting queue");
+        if self.queues.remove(queue).is_none() {
+            warn!(queue = queue, "attempted to remove a non-existing queue");
+            return Err(MissingQueue(queue.to_string()));
+        }
+        Ok(())
+    }""", """    pub fn delete_queue(&mut self, queue: &str) -> Result<MemQueue, MissingQueue> {
+        info!(queue = queue, "deleting queue");
+        match self.queues.remove(queue) {
+            Some(mem_queue) => Ok(mem_queue),
+            None => {
+                warn!(queue = queue, "attempted to remove a non-existing queue");
+                Err(MissingQueue(queue.to_string()))
+            }
+        }
+    }"""),
+                (MRL, """        self.in_mem_queues.delete_queue(queue)?;
+        num_bytes_written += self.run_gc_if_necessary()?;
+        self.persist(PersistAction::FlushAndFsync)?;
+        Ok(DeleteQueueOutcome {""", """        let deleted_queue = self.in_mem_queues.delete_queue(queue)?;
+        num_bytes_written += self.run_gc_if_necessary()?;
+        self.persist(PersistAction::FlushAndFsync)?;
+        debug!(released_bytes = deleted_queue.size(), "queue deleted");
+        Ok(DeleteQueueOutcome {""")]),
+]
+
 REFACTORS = [
     dict(name='rename_private_fns', desc='rename run_gc_if_necessary / record_empty_queues_position',
          edits=[(MRL, 'fn run_gc_if_necessary(&mut self)', 'fn maybe_collect_garbage(&mut self)'),
